@@ -479,16 +479,44 @@ class Gen:
     def program(self):
         sc = Scope()
         n = self.r.randrange(3, self.o["max_stmts"])
-        out = []
+        chunks = []
         for _ in range(n):
             if self.chance(0.22):
-                out += self.function(sc)
+                chunks.append(self.function(sc))
             else:
-                out += self.stmt(sc, 0)
+                chunks.append(self.stmt(sc, 0))
+        if self.chance(self.o.get("forward_refs", 0.15)):
+            self.forward_refs(chunks)
+        out = [l for c in chunks for l in c]
         # final value
         if self.chance(0.7):
             out.append(self.expr(sc, self.pick(["int", "int", "str", "bool"])))
         return "\n".join(out)
+
+    def forward_refs(self, chunks):
+        """A top-level name read (directly, through a function or through a lambda) before and after
+        the statement that defines it: before, the global is null.  Only printed, never operated on."""
+        self.features.add("forward-ref")
+        k = self.r.randrange(1000)
+        g, rd = f"LATE{k}", f"rd{k}"
+        lit = self.pick([self.int_lit(), '"s"', "true", "7", "1 + 2"])
+        shape = self.r.randrange(4)
+        if shape == 0:
+            decl = [f"fn {rd}() {{ return {g} }}"]; use = f"println({rd}())"
+        elif shape == 1:
+            decl = [f"let {rd} = fn() {{ return {g} }}"]; use = f"println({rd}())"
+        elif shape == 2:
+            decl = [f'fn {rd}() {{ print("<{rd}>"); let t = {g}; return "v={{t}}" }}']; use = f"println({rd}())"
+        else:
+            decl = []; use = f'println("{{{g}}}")' if self.chance(0.5) else f"println({g})"
+        pieces = ([decl] if decl else []) + [[use], [f"let {g} = {lit}"], [use]]
+        if self.chance(0.3):
+            pieces = ([decl] if decl else []) + [[f"let {g} = {lit}"], [use]]      # definition first: may be propagated
+        # the reader either sits among the leading declarations or after the first effect
+        pos = 0 if self.chance(0.5) else self.r.randrange(len(chunks) + 1)
+        for pc in pieces:
+            chunks.insert(pos, pc)
+            pos = self.r.randrange(pos + 1, len(chunks) + 1)
 
     # 'small' parameter type: recursion depth
     def expr_small(self):
